@@ -1001,10 +1001,9 @@ class Client():
 
         self.connector.tx(request)
 
-        if method is not None:
-            self.respondent.reinit(method=self.requester.method)
-        else:
-            self.respondent.reinit()  # reset code status reason
+        # reset code status reason, always with the method actually sent (not
+        # the GET default) so a redirected HEAD is not awaited with a body
+        self.respondent.reinit(method=self.requester.method)
 
     def redirect(self):
         """
